@@ -74,6 +74,11 @@ def run_sequences(out, stream, cases):
             res.append(v + " ## handler=%d" % nh if complete else "barrier-lost " + v)
         return res
     io = asyncio.run(go())
+    lost = [k for k, t in enumerate(io) if t.startswith("barrier-lost")]
+    if lost:          # UDP under load: a lost sentinel says nothing about the bridge; such a sequence is sent once more
+        keep = cases; cases = [keep[k] for k in lost]; again = asyncio.run(go()); cases = keep
+        for k, t in zip(lost, again):
+            out.notes.append("sequence %d lost its barrier datagram and was sent again" % k); io[k] = t
     mo = []
     for c, m in zip(cases, lib.run_model([lib.req("dispatch", [[p, bytes.fromhex(h)] for p, h in c["events"]], c["raising"]) for c in cases])):
         lines = m.split("\n"); pairs = []
@@ -98,6 +103,10 @@ def run_repeats(out, stream, cases):
             res.append(" ".join(log) if complete else "barrier-lost")
         return res
     io = asyncio.run(go())
+    lost = [k for k, t in enumerate(io) if t == "barrier-lost"]
+    if lost:
+        keep = cases; cases = [keep[k] for k in lost]; again = asyncio.run(go()); cases = keep
+        for k, t in zip(lost, again): io[k] = t
     mo = []
     for m in lib.run_model([lib.req("dispatch", [[p, bytes.fromhex(h)] for p, h in c["events"]], c["raising"]) for c in cases]):
         mo.append(" ".join(l.split(":", 1)[1] for l in m.split("\n")[:-1]))
